@@ -505,7 +505,7 @@ MASS_BUDGET = [None]      # quick tier: at most this many fragments per case get
 def oracle_case(case):
     """the property itself on the real implementation; returns None or a description"""
     import peptacular as pt
-    dump, req = case
+    dump, req = case[0], case[1]
     a0 = annot.undump(dump)
     n = len(a0.sequence)
     req = dict(req)
@@ -657,7 +657,10 @@ def run(chk):
     pt = _pt()
     from peptacular import fragmentation as fr_mod, constants, spans as sp_mod
     tier, rng = chk.tier, chk.rng
+    import time
+    t0 = time.time()
     chk.lean_build(['PeptVerif.Props.C04'], DRV)
+    chk.notes.append('lean build + axiom audit: %.1f s' % (time.time() - t0))
     chk.trusted += [
         'masses are abstract in the Lean model: the per-residue components (mass(c, charge=0, ion_type="n") for c in split()) and the '
         'table constants (PROTON_MASS, NEUTRON_MASS, *_FRAGMENT_ADJUSTMENTS, *_FRAGMENT_ION_ADJUSTMENTS) are computed by the '
@@ -812,7 +815,13 @@ def run(chk):
             chk.count('with-losses')
 
     # ------------------------------------------------------------- (c) oracle on the implementation
-    ocases = [(c[1], c[2]) for c in cases if c[3] is None]
+    def ocase(dump, req):
+        # third component: for the reader of a replay file only
+        return (dump, req, {'peptide': annot.undump(dump).serialize(),
+                            'call': 'peptacular.fragment(peptide, **request) / peptacular.Fragmenter(peptide, monoisotopic).fragment(...)',
+                            'rerun': './check C04 --replay <this file>'})
+
+    ocases = [ocase(c[1], c[2]) for c in cases if c[3] is None]
     if tier == 'quick' and not chk.broken():
         nc = len(corpus_cases())
         ocases = ocases[:nc] + ocases[nc::3]
@@ -821,16 +830,18 @@ def run(chk):
     for n in range(1, 13):
         sq = ''.join(rng.choice(annot.RESIDUES20) for _ in range(n))
         for t in ION_TYPES:
-            ocases.append((annot.dump(_mods_api()[1](_sequence=sq)),
-                           {'ion_types': t, 'charges': [1, 2], 'monoisotopic': True, 'isotopes': [0, 1], 'water_loss': True,
-                            'ammonia_loss': False, 'losses': None, 'max_losses': 1, 'return_type': 'fragment', 'precision': None}))
+            ocases.append(ocase(annot.dump(_mods_api()[1](_sequence=sq)),
+                                {'ion_types': t, 'charges': [1, 2], 'monoisotopic': True, 'isotopes': [0, 1], 'water_loss': True,
+                                 'ammonia_loss': False, 'losses': None, 'max_losses': 1, 'return_type': 'fragment',
+                                 'precision': None}))
     if chk.broken():
         for _ in range(2000):
             a = gen_peptide(rng)
-            ocases.append((annot.dump(a), gen_request(rng, tier, a.sequence)))
+            ocases.append(ocase(annot.dump(a), gen_request(rng, tier, a.sequence)))
     chk.oracle('fragment_property', ocases, oracle_case,
                nontrivial_fn=lambda c: len(annot.undump(c[0]).sequence) >= 2, key_fn=lambda c: c[0] + json.dumps(c[1], sort_keys=True))
 
+    chk.notes.append('correspondence + oracle: %.1f s' % (time.time() - t0))
     if tier == 'thorough':
         chk.leanchecker(['PeptVerif.Model.Fragment', 'PeptVerif.Lemmas.Fragment', 'PeptVerif.Props.C04'])
     return chk.finish(classify)
@@ -854,7 +865,7 @@ def classify(f):
     """known findings; only failures that structurally match (and disappear when the feature is removed)"""
     if f.get('oracle') != 'fragment_property' or not str(f.get('detail', '')).startswith('MASS '):
         return None
-    dump, req = f['case']
+    dump, req = f['case'][0], f['case'][1]
     a = annot.undump(dump)
     if has_terminal_static(a):
         if oracle_case((annot.dump(_strip_terminal_static(a)), req)) is None:
